@@ -77,9 +77,7 @@ func TestVerifC01Redis(t *testing.T) {
 						if got != red.Cmder(cmd) {
 							return errors.New("c01: wrong command passed on")
 						}
-						if c.Panics {
-							panic(verifc01.PanicValue)
-						}
+						c.Unwind()
 						return want
 					})(ctx, cmd)
 				case "rpipe":
@@ -90,9 +88,7 @@ func TestVerifC01Redis(t *testing.T) {
 						if len(got) != len(cmds) {
 							return errors.New("c01: wrong commands passed on")
 						}
-						if c.Panics {
-							panic(verifc01.PanicValue)
-						}
+						c.Unwind()
 						return want
 					})(ctx, cmds)
 				default:
